@@ -1,4 +1,5 @@
 use crate::common::Ctx;
+pub mod c06;
 pub mod c09;
 pub mod c14;
 pub mod c05;
@@ -29,6 +30,7 @@ pub fn dispatch(ctx: &mut Ctx) -> bool {
         "C05" => c05::run(ctx),
         "C14" => c14::run(ctx),
         "C09" => c09::run(ctx),
+        "C06" => c06::run(ctx),
         _ => return false,
     }
     true
